@@ -450,13 +450,9 @@ func (vc *VC) closedAxiom(c, version, top string, domOf func(string) string) str
 	default:
 		return ""
 	}
-	leaves := vc.refLeaves(val, ci.ty, 2)
-	if len(leaves) == 0 {
+	cs := vc.closedFacts(val, ci.ty, top, 2)
+	if len(cs) == 0 {
 		return ""
-	}
-	var cs []string
-	for _, l := range leaves {
-		cs = append(cs, "(<= 0 "+l+")", "(< "+l+" "+top+")")
 	}
 	return fmt.Sprintf("(assert (forall %s (! (=> %s %s) :pattern (%s))))", bind, guard, and(cs...), pat)
 }
@@ -510,4 +506,41 @@ func (vc *VC) evComps(name string) []string {
 		out = append(out, c)
 	}
 	return out
+}
+
+
+// zeroArray: an array whose every element is the zero value (a quantified definition rather than an
+// (as const ...) term: cvc5 only accepts syntactic values there)
+func (vc *VC) zeroArray(elemSort, zero string) string {
+	n := vc.fresh("zeros", fmt.Sprintf("(Array Int %s)", elemSort))
+	vc.emit(fmt.Sprintf("(assert (forall ((j Int)) (! (= (select %s j) %s) :pattern ((select %s j)))))", n, zero, n))
+	return n
+}
+
+
+// closedFacts: well-formedness of a heap-resident value of Go type t (references allocated, slices well-formed)
+func (vc *VC) closedFacts(term string, t types.Type, top string, depth int) []string {
+	t = types.Unalias(t)
+	switch u := t.Underlying().(type) {
+	case *types.Pointer, *types.Map:
+		return []string{"(<= 0 " + term + ")", "(< " + term + " " + top + ")"}
+	case *types.Slice:
+		return []string{"(wf-slice " + term + ")", "(< (s-base " + term + ") " + top + ")", "(=> (= (s-base " + term + ") 0) (= (s-cap " + term + ") 0))"}
+	case *types.Interface:
+		return []string{"(<= 0 (i-ref " + term + "))", "(< (i-ref " + term + ") " + top + ")"}
+	case *types.Basic:
+		if u.Info()&types.IsUnsigned != 0 {
+			return []string{"(>= " + term + " 0)"}
+		}
+	case *types.Struct:
+		if depth <= 0 {
+			return nil
+		}
+		var out []string
+		for i := 0; i < u.NumFields(); i++ {
+			out = append(out, vc.closedFacts(vc.sorts.structGet(t, i, term), u.Field(i).Type(), top, depth-1)...)
+		}
+		return out
+	}
+	return nil
 }
